@@ -615,6 +615,10 @@ func callSSAx(i *interpreter, caller *frame, callpos token.Pos, fn *ssa.Function
 		if o := fn.Origin(); o != nil {
 			name = o.String()
 		}
+		if rep, ok := i.hostData["replace:"+name]; ok {
+			// verifrt.Replace: the harness supplied a stand-in with the same parameter list
+			return call(i, caller, callpos, rep, args)
+		}
 		if ext := intrinsics[name]; ext != nil && !i.cfg.RealFns[name] {
 			if r, handled := ext(fr, args); handled {
 				return r
